@@ -28,7 +28,10 @@ RULE = (
     "slice-assign the list of a second value, clear(); the same append on an object that came out of deserialize(); "
     "finally every field set to a second in-domain value of the class (a boundary document, or 'alt' of the case) - "
     "every serialize() gives the reference encoding of the value the object holds at that moment (and the bytes of a "
-    "freshly constructed equal message). Non-trivial = payload non-empty and not all zero bytes (message cases) or payload longer than 4 bytes "
+    "freshly constructed equal message); independence of decodes: the frame is decoded by its class and by the dispatcher "
+    "next to two messages of other classes whose arrays are empty (PeerSearchReply, RoomList), no two lists reachable from "
+    "those results may be one list object, then an element is appended in place to every list of every result and the "
+    "same bytes are decoded again: every result equals the original value. Non-trivial = payload non-empty and not all zero bytes (message cases) or payload longer than 4 bytes "
     "(obfuscation cases); distinct = distinct case document. (c) raw frames: the 299 hand-written vectors through the "
     "metamorphic oracle 'if the bytes decode to m then decode(encode(m)) == m and encode(decode(encode(m))) == encode(m)'; "
     "thorough additionally runs atheris (libFuzzer, coverage-guided) on each of the five dispatchers with that oracle, "
@@ -303,6 +306,89 @@ def _same_frame(m, key, frame: bytes, values) -> bool:
 
 
 _ALT_CACHE: dict = {}
+_SENTINEL = '\x00c01-sentinel\x00'
+# two messages of other classes whose arrays are all empty (decoded next to the message of the case)
+_PROBE_KEYS = ('peer:PeerSearchReply:Request', 'server:RoomList:Response')
+_PROBE_CACHE: dict = {}
+
+
+def _lists_of(obj, path='', out=None):
+    """All list objects reachable from a decoded message: [(path, list)] (fields in declaration order)."""
+    import dataclasses
+    if out is None:
+        out = []
+    if dataclasses.is_dataclass(obj) and not isinstance(obj, type):
+        for f in dataclasses.fields(obj):
+            v = getattr(obj, f.name, None)
+            if isinstance(v, list):
+                out.append((f'{path}{f.name}', v))
+                for i, item in enumerate(v):
+                    if dataclasses.is_dataclass(item):
+                        _lists_of(item, f'{path}{f.name}[{i}].', out)
+            elif dataclasses.is_dataclass(v):
+                _lists_of(v, f'{path}{f.name}.', out)
+    return out
+
+
+def _decode_independence(res: CaseResult, key, data: bytes, want):
+    """decode(encode(m)) == m whatever was done with the results of earlier decodes: the frame of the case is decoded
+    by its class and by the group dispatcher, next to two messages of other classes whose arrays are empty; no two
+    lists of those results may be one object; then an element is appended in place to every list of every result
+    (what an application does that merges / extends the lists it was handed), and the same bytes are decoded again."""
+    group, name, kind = key.split(':')
+    fields = wire_ref.BY_KEY[key]['fields']
+    cls = msgbridge.msg_class(key)
+    if not _PROBE_CACHE:
+        for pk in _PROBE_KEYS:
+            pv = next(iter(_boundary_cases(pk)))['values']       # all-min: every array empty
+            _PROBE_CACHE[pk] = (wire_ref.encode(pk, pv), expected_after_roundtrip(pk, pv))
+    mutated = []
+    try:
+        def decode_all():
+            out = [('class', key, cls.deserialize(0, data), want),
+                   ('dispatcher', key, _dispatch_live(group, kind, data), want)]
+            for pk in _PROBE_KEYS:
+                if pk != key:
+                    frame, pwant = _PROBE_CACHE[pk]
+                    out.append(('class', pk, msgbridge.msg_class(pk).deserialize(0, frame), pwant))
+            return out
+
+        first = decode_all()
+        lists = []
+        for how, k, obj, _ in first:
+            lists.extend((f'{k}({how}).{path}', lst) for path, lst in _lists_of(obj))
+        if not _lists_of(first[0][2]):
+            return      # the message of the case has no array
+        seen = {}
+        for path, lst in lists:
+            if id(lst) in seen:
+                res.violate(f'C01/decode:results-share-a-list-object:{"empty" if not lst else "non-empty"}',
+                            f'{seen[id(lst)]} and {path} are the same list object ({key})')
+                break
+            seen[id(lst)] = path
+        if any(not lst for _, lst in lists):
+            res.label('decode-independence:empty-array')
+        for _, lst in lists:
+            lst.append(_SENTINEL)
+            mutated.append(lst)
+        for how, k, obj, expect in decode_all():
+            try:
+                _, got = msgbridge.from_obj(obj)
+                got = _norm_fields(wire_ref.BY_KEY[k]['fields'], got)
+            except Exception as exc:
+                got = f'<not a value of the class: {exc!r}>'
+            if got != expect:
+                which = 'same-class' if k == key else 'other-class'
+                res.violate(f'C01/decode:depends-on-earlier-decode:{which}:{how}',
+                            f'after an element was appended in place to the lists of earlier decoded messages, '
+                            f'{k} decodes as {str(got)[:300]} instead of {str(expect)[:300]} (case {key})')
+    except Exception as exc:
+        res.violate(f'C01/decode:independence-raises:{key}:{type(exc).__name__}', repr(exc))
+    finally:
+        # run_case stays a pure function of the case even when the decoder hands out shared lists
+        for lst in mutated:
+            while _SENTINEL in lst:
+                lst.remove(_SENTINEL)
 
 
 def _second_use(res: CaseResult, key, values, alt):
@@ -569,6 +655,8 @@ def run_msg_case(case, res: CaseResult):
         if not _values_in_domain(key, alt):
             alt = None
     _second_use(res, key, values, alt)
+    # (11) a decode does not depend on what happened to the results of earlier decodes
+    _decode_independence(res, key, data, want)
     res.nontrivial = len(ref_payload) > 0 and any(ref_payload)
     if any(v is None for v in values.values()):
         res.label('has-absent-field')
